@@ -190,6 +190,20 @@ def m_trim(it, recv, args, e, mod, discard):
     raise InternalError("trim of a non-concrete string")
 
 
+@method("filter_map")
+def m_filter_map(it, recv, args, e, mod, discard):
+    I = _I()
+    f = it.deref(args[0])
+    src = it.iterate(it.deref(recv))
+
+    def gen():
+        for x in src:
+            r = opt(it, it.call_value(f, [x]))
+            if r.variant == "Some":
+                yield r.fields[0]
+    return I.IterV(gen())
+
+
 @method("filter")
 def m_filter(it, recv, args, e, mod, discard):
     I = _I()
@@ -552,6 +566,36 @@ def m_get(it, recv, args, e, mod, discard):
             i = k if k < n else n
         return some(r[i]) if 0 <= i < len(r) else none()
     raise InternalError("get on %s" % type(r).__name__)
+
+
+class EntryV:
+    """HashMap::entry(key)"""
+    __slots__ = ("map", "key")
+
+    def __init__(self, m, k):
+        self.map = m
+        self.key = k
+
+
+@method("entry")
+def m_entry(it, recv, args, e, mod, discard):
+    I = _I()
+    r = it.resolve(recv)
+    if not isinstance(r, I.MapV):
+        raise InternalError("entry on %s" % type(r).__name__)
+    return EntryV(r, it.deref(args[0]))
+
+
+@method("or_insert")
+def m_or_insert(it, recv, args, e, mod, discard):
+    r = it.deref(recv)
+    if not isinstance(r, EntryV):
+        raise InternalError("or_insert on %s" % type(r).__name__)
+    i = map_find(it, r.map, r.key)
+    if i is None:
+        r.map.items.append([r.key, args[0]])
+        i = len(r.map.items) - 1
+    return r.map.items[i][1]
 
 
 @method("remove")
